@@ -1007,7 +1007,7 @@ def do_float(value: t.Any, default: float = 0.0) -> float:
     """
     try:
         return float(value)
-    except (TypeError, ValueError):
+    except (TypeError, ValueError, OverflowError):
         return default
 
 
